@@ -480,9 +480,9 @@ theorem netlocOk_canon {n h' : Str} (hwf : wfNetloc n = true)
 section
 variable (sp : Str → Option (Str × Str))
 
-theorem expectedHost_cases (sa : Bool) (n : Str)
-    (hbr : sa = true → (specHost n).head? = some '[' → splitSuffixParsed sp n = none)
-    (hshape : HostShape (specHost n)) :
+/-- the host handed to `urlunsplit` is the host as written — always so for a bracketed literal,
+which stems.py never suffix-processes — or a plain host lower-cased -/
+theorem expectedHost_cases (sa : Bool) (n : Str) (hshape : HostShape (specHost n)) :
     expectedHost sp sa n = specHost n ∨
       (Plain (specHost n) ∧ expectedHost sp sa n = Py.lower (specHost n)) := by
   unfold expectedHost
@@ -490,7 +490,9 @@ theorem expectedHost_cases (sa : Bool) (n : Str)
   · rename_i hc
     simp only [Bool.and_eq_true] at hc
     rcases hshape with ⟨inner, hin, _⟩ | hp
-    · have := hbr hc.1 (by rw [hin]; rfl)
+    · have : hostSplit sp n = none := by
+        unfold hostSplit
+        rw [hin]; rfl
       rw [this] at hc
       simp at hc
     · exact Or.inr ⟨hp, rfl⟩
@@ -607,30 +609,6 @@ theorem mem_pyHostname {n : Str} {c : Char} (hx : ¬ ('a' ≤ c ∧ c ≤ 'z')) 
 theorem pyHostname_congr {a b : Str} (h : pyHostinfoHost a = pyHostinfoHost b) :
     pyHostname a = pyHostname b := by
   unfold pyHostname; rw [h]
-
-/-! ## `saHostOK` by host shape -/
-
-section
-variable (sp : Str → Option (Str × Str))
-
-theorem saHostOK_plain {n : Str} (hp : Plain (specHost n)) :
-    saHostOK sp n = noneOf ['%'] (specHost n) := by
-  unfold saHostOK
-  have : ((specHost n).head? == some '[') = false := by
-    cases hh : specHost n with
-    | nil => rfl
-    | cons c r =>
-      have : c ≠ '[' := (hp c (by rw [hh]; simp)).2.1
-      simp [this]
-  rw [this]; rfl
-
-theorem saHostOK_bracketed {n inner : Str} (hin : specHost n = '[' :: inner ++ [']']) :
-    saHostOK sp n = (splitSuffixParsed sp n).isNone := by
-  unfold saHostOK
-  rw [hin]; rfl
-
-end
-
 
 /-! ## the printed URL starts with `scheme://` -/
 
